@@ -75,20 +75,31 @@ mod verif_settings {
         }
     }
 
-    macro_rules! recon_case {
-        ($name:ident, $tabs:expr, $tw:expr, $ci:expr, $unwind:expr) => {
-            #[kani::proof]
-            #[kani::unwind($unwind)]
-            fn $name() {
-                run_recon($tabs, $tw, $ci);
-            }
-        };
+    #[kani::proof]
+    #[kani::unwind(8)]
+    fn settings_recon_spaces_2_2() {
+        run_recon(false, 2, 2);
     }
-    recon_case!(settings_recon_spaces_2_2, false, 2, 2, 8);
-    recon_case!(settings_recon_tabs_4_3, true, 4, 3, 8);
-    recon_case!(settings_recon_spaces_0_5, false, 0, 5, 8);
-    recon_case!(settings_recon_spaces_3_1, false, 3, 1, 8);
-    recon_case!(settings_recon_tabs_0_0, true, 0, 0, 8);
+    #[kani::proof]
+    #[kani::unwind(8)]
+    fn settings_recon_tabs_4_3() {
+        run_recon(true, 4, 3);
+    }
+    #[kani::proof]
+    #[kani::unwind(8)]
+    fn settings_recon_spaces_0_5() {
+        run_recon(false, 0, 5);
+    }
+    #[kani::proof]
+    #[kani::unwind(8)]
+    fn settings_recon_spaces_3_1() {
+        run_recon(false, 3, 1);
+    }
+    #[kani::proof]
+    #[kani::unwind(8)]
+    fn settings_recon_tabs_0_0() {
+        run_recon(true, 0, 0);
+    }
 
     // arithmetic of the conversion for every (use_tabs, tab_width, continuation_indents): only the
     // lengths are observed (str::repeat on a symbolic count is expensive; contents are covered by the
